@@ -557,4 +557,28 @@ func (e *exec) multisig(s *Step) {
 	if outer.VerifyBytes(msg, crypto.MultiSignature{Sigs: [][]byte{good, s0}}.Marshal()) {
 		e.viol("multisig-binds", map[string]string{"what": "nested-misplaced"}, "a nested multisignature with misplaced components verifies")
 	}
+	// every defect of the flat case again one level down: the inner component is short, empty, reordered, duplicated, long
+	innerBad := func(what string, ss [][]byte) {
+		inner := crypto.MultiSignature{Sigs: ss}.Marshal()
+		if outer.VerifyBytes(msg, crypto.MultiSignature{Sigs: [][]byte{s0, inner}}.Marshal()) {
+			e.viol("multisig-binds", map[string]string{"what": "nested-inner-" + what}, "a nested multisignature whose inner component is %s verifies", what)
+		}
+	}
+	innerBad("missing", sigs[:n-1])
+	innerBad("empty", nil)
+	innerBad("reordered", rev)
+	innerBad("duplicated", dup)
+	innerBad("truncated", tr)
+	innerBad("extra", append(append([][]byte{}, sigs...), sigs[0]))
+	// and two levels down
+	outer2 := crypto.PublicKeyMultiSignature{PublicKeys: []crypto.PublicKey{outer, pubs[1]}}
+	s1, _ := privs[1].Sign(msg)
+	goodOuter := crypto.MultiSignature{Sigs: [][]byte{s0, good}}.Marshal()
+	if !outer2.VerifyBytes(msg, crypto.MultiSignature{Sigs: [][]byte{goodOuter, s1}}.Marshal()) {
+		e.viol("multisig-verifies", map[string]string{"what": "nested-twice"}, "a doubly nested multisignature in order does not verify")
+	}
+	shortInner := crypto.MultiSignature{Sigs: [][]byte{s0, crypto.MultiSignature{Sigs: sigs[:n-1]}.Marshal()}}.Marshal()
+	if outer2.VerifyBytes(msg, crypto.MultiSignature{Sigs: [][]byte{shortInner, s1}}.Marshal()) {
+		e.viol("multisig-binds", map[string]string{"what": "nested-twice-inner-missing"}, "a doubly nested multisignature with a short innermost component verifies")
+	}
 }
